@@ -120,3 +120,8 @@ package xpush
 //@   ensures cast("*socket", result).failNoPeers == false
 //@
 // ---- end generated default contracts ----
+// ---- generated current-queue contracts (from `govc sites -select`): the select uses the socket's queues as of the last time the lock was held ----
+//@ func (*socket).SendMsg
+//@   before select#1 assert selsends(s.sendQ)
+//@
+// ---- end generated current-queue contracts ----
